@@ -16,7 +16,7 @@ from __future__ import annotations
 import ast
 from typing import Dict, List, Optional, Tuple
 
-from sa.astx import dotted, lincmp, src
+from sa.astx import dotted, lincmp, src, walk_local
 from sa.effects import class_accesses
 from sa.source import AnalysisError, methods, mro_lookup
 
@@ -2333,3 +2333,104 @@ def public_api_effects(mod, cls: ast.ClassDef, attrs, roots, stop):
                 seen[t] = seen[m] + [t]
                 todo.append(t)
     return res
+
+
+# =========================================================================== per-instance container state
+_FRESH_CALLS = {"list", "dict", "set", "deque", "collections.deque", "defaultdict", "collections.defaultdict", "OrderedDict",
+                "collections.OrderedDict", "bytearray"}
+
+
+def is_fresh_container(e: ast.AST) -> bool:
+    if isinstance(e, (ast.List, ast.Dict, ast.Set, ast.ListComp, ast.DictComp, ast.SetComp)):
+        return True
+    return isinstance(e, ast.Call) and (dotted(e.func) or "") in _FRESH_CALLS
+
+
+def _mro_classes(mod, cls: ast.ClassDef, seen=None) -> List[ast.ClassDef]:
+    from sa.source import base_names
+    seen = seen if seen is not None else []
+    if cls in seen:
+        return seen
+    seen.append(cls)
+    for b in base_names(cls):
+        bc = mod.find(b)
+        if isinstance(bc, ast.ClassDef):
+            _mro_classes(mod, bc, seen)
+    return seen
+
+
+def _init_establishes(ctx, mod, concrete: ast.ClassDef, start: ast.ClassDef, attr: str, depth=0):
+    """Does constructing ``concrete`` - entering the initialiser resolved from ``start`` along the MRO - assign
+    ``self.<attr>`` a fresh container on every normal path?  -> (ok, where text, witness text)"""
+    if depth > 6:
+        return False, "initialiser chain too deep", ""
+    r = mro_lookup(mod, start, "__init__")
+    if not r or not isinstance(r[1], (ast.FunctionDef, ast.AsyncFunctionDef)):
+        return False, f"no __init__ is defined on {start.name} or its bases in this module", ""
+    owner, f = r
+    g = ctx.cfg(f)
+    good = []
+    why = []
+
+    def targets(st):
+        if isinstance(st, ast.Assign):
+            return st.targets
+        if isinstance(st, ast.AnnAssign) and st.value is not None:
+            return [st.target]
+        return []
+    for n in g.ids(lambda n: n.kind == "stmt"):
+        st = g.node(n).ast
+        for t in targets(st):
+            flat = t.elts if isinstance(t, (ast.Tuple, ast.List)) else [t]
+            vals = st.value.elts if isinstance(t, (ast.Tuple, ast.List)) and isinstance(st.value, (ast.Tuple, ast.List)) and len(st.value.elts) == len(flat) else [st.value] * len(flat)
+            for tt, v in zip(flat, vals):
+                if isinstance(tt, ast.Attribute) and isinstance(tt.value, ast.Name) and tt.value.id == "self" and tt.attr == attr:
+                    if is_fresh_container(v):
+                        good.append(n)
+                    else:
+                        why.append(f"{owner.name}.__init__ assigns self.{attr} = {src(v)} (not a container created for this instance)")
+        for c in walk_local(st):
+            if isinstance(c, ast.Call) and isinstance(c.func, ast.Attribute) and c.func.attr == "__init__":
+                base = c.func.value
+                nxt = None
+                if isinstance(base, ast.Name) and base.id != "self":
+                    bc = mod.find(base.id)
+                    nxt = bc if isinstance(bc, ast.ClassDef) else None
+                elif isinstance(base, ast.Call) and dotted(base.func) == "super":
+                    chain = _mro_classes(mod, concrete)
+                    nxt = chain[chain.index(owner) + 1] if owner in chain and chain.index(owner) + 1 < len(chain) else None
+                if nxt is not None and nxt is not owner:
+                    ok, _, _ = _init_establishes(ctx, mod, concrete, nxt, attr, depth + 1)
+                    if ok:
+                        good.append(n)
+    wit = g.must_pass([g.entry], good, exc=False)
+    if good and wit is None:
+        return True, f"{owner.name}.__init__", ""
+    if why:
+        return False, why[0], ""
+    return False, (f"{owner.name}.__init__ can return without assigning self.{attr} a fresh container" if good
+                   else f"{owner.name}.__init__ (the initialiser {concrete.name}() runs) never assigns self.{attr}"), g.describe(wit) if good else ""
+
+
+def per_instance_state(ctx, mod, concrete: ast.ClassDef, attr: str, modname: str, rule: str = "init/per-instance-state"):
+    """The mutable container ``self.<attr>`` of the class invariant must be created per instance on every construction
+    path of ``concrete`` (through explicit base calls / super() / inherited __init__); a class-level mutable default
+    that is not shadowed that way is shared by all instances."""
+    from sa.source import class_assigns
+    shared = None
+    for k in _mro_classes(mod, concrete):
+        v = class_assigns(k).get(attr)
+        if v is not None and is_fresh_container(v):
+            shared = (k, v)
+            break
+    ok, where, wit = _init_establishes(ctx, mod, concrete, concrete, attr)
+    c = f"{modname}.{concrete.name} | self.{attr}"
+    if ok:
+        ctx.ok(rule, c, f"fresh container assigned on every path of {where}")
+        return
+    if shared is not None:
+        msg = (f"`{attr} = {src(shared[1])}` is a class-level mutable default of {shared[0].name} and {where}: every {concrete.name} "
+               f"(and every other subclass instance) shares ONE {attr} container - an operation on one object serves / grants the waiters of another")
+    else:
+        msg = f"self.{attr} is not created per instance: {where}"
+    ctx.violation(rule, c, msg, witness=wit)
